@@ -24,10 +24,10 @@ import (
 var c17Pool = []string{"dlg", "inv", "dlg2", "inv2"}
 
 type c17Case struct {
-	Order  []int  `json:"order"`  // indexes into the pool, in insertion order
-	Format string `json:"format"` // car | car64 | cbor | cbor64
-	WStream bool  `json:"w_stream"`
-	RStream bool  `json:"r_stream"`
+	Order   []int  `json:"order"`  // indexes into the pool, in insertion order
+	Format  string `json:"format"` // car | car64 | cbor | cbor64
+	WStream bool   `json:"w_stream"`
+	RStream bool   `json:"r_stream"`
 }
 
 func (c *c17Case) Weight() int { return len(c.Order) }
@@ -106,8 +106,8 @@ func expectedSetView(names []string) string {
 
 func c17RoundtripSub() *engine.Sub {
 	return &engine.Sub{
-		Name: "roundtrip-matrix",
-		Rule: "every subset of a 4-token pool (2 delegations, 2 invocations; Ed25519, P-256, secp256k1 issuers) in every insertion order x format {CAR, CAR/base64, CBOR, CBOR/base64} x writer {bytes, stream} x reader {bytes, stream}: the reader holds exactly the tokens added, each under the reference CID of its sealed bytes with all fields equal, and the typed accessors (GetToken, GetDelegation, GetInvocation, GetAll*) agree with that set; non-trivial = non-empty subsets",
+		Name:  "roundtrip-matrix",
+		Rule:  "every subset of a 4-token pool (2 delegations, 2 invocations; Ed25519, P-256, secp256k1 issuers) in every insertion order x format {CAR, CAR/base64, CBOR, CBOR/base64} x writer {bytes, stream} x reader {bytes, stream}: the reader holds exactly the tokens added, each under the reference CID of its sealed bytes with all fields equal, and the typed accessors (GetToken, GetDelegation, GetInvocation, GetAll*) agree with that set; non-trivial = non-empty subsets",
 		Bound: func(string) string { return "65 ordered subsets x 4 formats x 2 writers x 2 readers" },
 		Gen: func(tier string, emit func(any) bool) {
 			var orders [][]int
@@ -320,8 +320,8 @@ type c17WrongCidCase struct {
 func c17WrongCidSub() *engine.Sub {
 	classes := []string{"other-tokens-cid", "same-digest-raw-codec", "sha2-512-of-data", "identity-of-data", "identity-of-other-data", "wrong-digest", "cidv0-of-data"}
 	return &engine.Sub{
-		Name: "block-stored-under-wrong-cid",
-		Rule: "a container written with AddSealed(cid', data) where cid' is another token's CID, a wrong digest, the identity hash of other data (must be rejected by a CAR reader: the CID does not hash to the data) or a different-but-correct address of the same data (raw codec, SHA2-512, identity, CIDv0: may be accepted); whatever is accepted holds the token under the reference CID of its sealed bytes; non-trivial = all",
+		Name:  "block-stored-under-wrong-cid",
+		Rule:  "a container written with AddSealed(cid', data) where cid' is another token's CID, a wrong digest, the identity hash of other data (must be rejected by a CAR reader: the CID does not hash to the data) or a different-but-correct address of the same data (raw codec, SHA2-512, identity, CIDv0: may be accepted); whatever is accepted holds the token under the reference CID of its sealed bytes; non-trivial = all",
 		Bound: func(string) string { return fmt.Sprintf("%d CID classes x 4 formats x 2 readers", len(classes)) },
 		Gen: func(tier string, emit func(any) bool) {
 			for _, f := range []string{"car", "car64", "cbor", "cbor64"} {
@@ -482,8 +482,8 @@ type c17RawCarCase struct {
 func c17RawCarSub() *engine.Sub {
 	layouts := []string{"A,B", "A,A", "A,B@cidA", "B@cidA,A", "A,B,B@cidA", "A,B@cidA,B", "A@cidB,B@cidA", "A,B@cidA,C", "A,C,B@cidC", "A,B,A"}
 	return &engine.Sub{
-		Name: "hand-built-car-files",
-		Rule: "CAR streams assembled by the harness from a header and sections (cid || data): duplicates of a block, and blocks stored under the CID of ANOTHER block of the same file at every relative position. A file containing a block whose CID does not hash to its data must be rejected by all four CAR readers; a file with honest duplicates reads as the set of its tokens; never a partial set; non-trivial = all",
+		Name:  "hand-built-car-files",
+		Rule:  "CAR streams assembled by the harness from a header and sections (cid || data): duplicates of a block, and blocks stored under the CID of ANOTHER block of the same file at every relative position. A file containing a block whose CID does not hash to its data must be rejected by all four CAR readers; a file with honest duplicates reads as the set of its tokens; never a partial set; non-trivial = all",
 		Bound: func(string) string { return fmt.Sprintf("%d layouts over 3 tokens x 4 CAR readers", len(layouts)) },
 		Gen: func(tier string, emit func(any) bool) {
 			for _, l := range layouts {
@@ -596,7 +596,9 @@ func c17CountSub() *engine.Sub {
 	return &engine.Sub{
 		Name: "token-count-boundaries",
 		Rule: "containers holding exactly n distinct tokens for every n in 0..40 and around the CBOR / varint width boundaries (23|24, 127|128, 255|256) x 4 formats x writer {bytes, stream} x reader {bytes, stream}: the reader holds exactly the n tokens added, each under the reference CID of its sealed bytes; non-trivial = n > 0",
-		Bound: func(t string) string { return "n in {0..40, 126..130, 254..258" + map[bool]string{true: ", 299", false: ""}[t == "thorough"] + "} x 4 formats x 2 writers x 2 readers" },
+		Bound: func(t string) string {
+			return "n in {0..40, 126..130, 254..258" + map[bool]string{true: ", 299", false: ""}[t == "thorough"] + "} x 4 formats x 2 writers x 2 readers"
+		},
 		Gen: func(tier string, emit func(any) bool) {
 			var ns []int
 			for n := 0; n <= 40; n++ {
